@@ -296,9 +296,7 @@ impl MulSpecImpl<&BigUint> for &BigUint {
 }
 impl Mul<&BigUint> for &BigUint {
     type Output = BigUint;
-    //@ assume BigUint:Mul<&BigUint>for&BigUint : impl_mul! leaf (slice-pattern dispatch to scalar_mul / mul3 -> mac3 assumed); contract: exact product
-    #[verifier::external_body]
-    fn mul(self, other: &BigUint) -> (r: BigUint) ensures r.wf(), r.v() == self.v() * other.v() { unimplemented!() }
+//@ stub u_mul/mul_rr
 }
 impl DivSpecImpl<BigUint> for &BigUint {
     open spec fn obeys_div_spec() -> bool { false }
